@@ -283,10 +283,15 @@ def dt_typestate(ctx, L, rule="R-DT-TYPESTATE"):
     if n == 0:
         ctx.unknown(rule, "no DT send in %s" % L.job.qual)
     # (2) only the job thread sends DT
+    from .common import owners
     for fn in P.all_funcs():
         if fn.cls is not None and fn.cls.name == L.cls and fn is not L.job:
             for s in ctx.cg.sites.get(fn.qual, []):
                 if is_self_call(s.sym, "__send_tp_dt"):
+                    # a helper reached only through the job scan is part of it (its body is inlined into the job paths of (1))
+                    own = owners(ctx, fn)
+                    if own and own <= {L.job.qual}:
+                        continue
                     ctx.violated(rule, fn, "%s DT send outside the job scan" % L.tag, "data packet sent from %s" % fn.name, s.node)
     # (3) who stores the connection-mode sending state
     E = _tx_entry(L)
@@ -402,6 +407,22 @@ def window_affine(ctx, L, rule="R-WINDOW-AFFINE"):
                     if affine_eq(gs, cnd):
                         ok = True
                         g = cnd
+                if not ok:
+                    # min-closure spelling: index + min(grant byte, clamps...) - 1
+                    from .common import affine as _aff, min_leaves as _ml
+                    af = _aff(gs)
+                    if af is not None and af[1] == 0 and len(af[0]) == 1 and list(af[0].values()) == [1]:
+                        leaves = _ml(list(af[0])[0])
+                        clamped_path = any(p_ and g_[0] == "cmp" and g_[1] == "<" and affine_eq(g_[3], grantbyte) and any(affine_eq(g_[2], l) for l in leaves)
+                                           for g_, p_ in lits(gl))
+                        if len(leaves) > 1 and all(any(affine_eq(l, c) for c in cands) for l in leaves) and \
+                                (any(affine_eq(l, grantbyte) for l in leaves) or clamped_path):
+                            ok = True
+                            # clamped to the total (or the remaining count) inside the closure?
+                            g = total if any(affine_eq(l, total) or affine_eq(l, mk_bin("-", total, cur_idx)) for l in leaves) else grantbyte
+                            if g == total:
+                                ctx.holds(rule, inst, "index + min(%s) - 1" % ", ".join(pretty(l)[:30] for l in leaves))
+                                continue
                 if not ok:
                     ctx.violated(rule, L.cm, inst, "window end is index + (%s) - 1: the burst sends that many packets, which is not the "
                                  "CTS grant or one of its clamps" % pretty(gs), e.node)
